@@ -1,5 +1,6 @@
 (* Properties/C03.v — priorities: the highest-priority writer wins, the latest among equals; metadata is combined. *)
 From AY Require Import Model.Merge Proofs.Prio Proofs.FactsOk Model.Loader Proofs.PrioBelow Spec.UpdateP Proofs.MergeGen Proofs.MergePrio Proofs.PrioPath Proofs.PrioLoad Proofs.PrioClass.
+From AY Require Model.Eval Proofs.EvalPlain.
 
 (* the order of the three priority constants is what the documentation says: !force > untagged > !weak *)
 Theorem C03_constants : (Facts.prio_weak <? Facts.prio_standard)%Z = true /\ (Facts.prio_standard <? Facts.prio_force)%Z = true
@@ -113,6 +114,14 @@ Theorem C03_document_prediction_sound : forall e c ys d, predict_docs ys = Some 
   exists n, flatten e (map (load_doc c) ys) = Ok n /\ perase n = d.
 Proof. exact predict_docs_ok. Qed.
 Print Assumptions C03_document_prediction_sound.
+
+(* ... all the way to the config a user gets: merge, check for placeholders, deep copy, evaluation - the evaluated config of any
+   number of prioritised mapping documents holds exactly the VALUES of the prioritised update of the documents *)
+Theorem C03_evaluated_config : forall e pe fe c y0 ys, Forall yz (y0 :: ys) -> forallb is_YM (y0 :: ys) = true ->
+  exists n v st, flatten e (map (load_doc c) (y0 :: ys)) = Ok n /\ Model.Eval.config pe fe n = Ok (v, st) /\
+                 EvalPlain.vplain v = pvals (fold_left upd_p (map (yprio None) ys) (yprio None y0)).
+Proof. exact docs_evaluated_config. Qed.
+Print Assumptions C03_evaluated_config.
 
 (* path by path, on the specification alone: the fold of upd_p holds at q the fold of what the stages hold at q *)
 Theorem C03_update_is_pointwise : forall ds d0 q, q <> [] -> sp d0 q -> Forall (fun d => sp d q /\ pwf d) ds ->
